@@ -7,10 +7,10 @@
    integer exponents of both signs, fractional exponents of both signs.  Every dispatch class of
    ExpLogAlg (argument class x exponent class, limited and unlimited precision) has a family here;
    checks/C11.py verifies that from the replayed events.
-   `Thin` keeps one case in Thin (selected by a hash with the seed); the mode rotates with the same
-   hash unless AllModes. *)
+   `Thin` keeps one case in Thin (selected by a hash with the seed; one in Thin * ThinBig for the costly
+   precisions above 12); the mode rotates with the same hash unless AllModes. *)
 EXTENDS FloatDef, Json
-CONSTANTS Bases, Precs, Seed, Thin, AllModes
+CONSTANTS Bases, Precs, Seed, Thin, ThinBig, AllModes
 
 Modes == <<"Zero", "Away", "Up", "Down", "HalfEven", "HalfAway">>
 Ops == {"exp", "exp_m1", "ln", "ln_1p", "powi", "powf"}
@@ -116,7 +116,7 @@ Case ==
 
 Mix == Lcg(Hash, Seed)
 \* unlimited precision (0) is never thinned: those cases are cheap and each one is a required class
-Selected == /\ (prec = 0 \/ Mix % Thin = 0)
+Selected == /\ (prec = 0 \/ Mix % (IF prec > 12 THEN Thin * ThinBig ELSE Thin) = 0)
             /\ (AllModes \/ mode = 1 + ((Mix \div Thin) % 6))
 Emit == (phase = "done" /\ Selected) => PrintT(<<"GEN", ToJson(Case)>>)
 =============================================================================
